@@ -9,6 +9,7 @@ import (
 	resourceUtils "lunar/engine/streams/resources/utils"
 	"lunar/engine/streams/stream"
 	"lunar/toolkit-core/clock"
+	"lunar/toolkit-core/verifhook"
 	"lunar/toolkit-core/jsonpath"
 	"strconv"
 	"strings"
@@ -162,8 +163,10 @@ func (q *quota) Inc(APIStream publicTypes.APIStreamI) incResult {
 		q.storeCountIntoContext(currentCount, q.currentCountKey)
 	}
 	if q.allowedByReqID[reqID] {
+		verifhook.Event("fw.inc", q.currentCountKey, reqID, "increased", strconv.FormatBool(windowRestarted))
 		return increased
 	}
+	verifhook.Event("fw.inc", q.currentCountKey, reqID, "blocked", strconv.FormatBool(windowRestarted))
 	return blocked
 }
 
